@@ -182,4 +182,140 @@ theorem checkAttrs_sound (t : AttrTables) (h : checkAttrs t = true) :
     rw [List.contains_iff_mem.2 hm] at h9
     exact absurd h9 (by simp)
 
+/-! ### the whole `scico.numpy` namespace: wrapped or deliberately passed through -/
+
+/-- PINNED: the public names of `jax.numpy` (with `linalg.*`, `fft.*`) that `scico.numpy` passes through
+    unwrapped — dtypes, constants, index helpers, array construction from data, i/o, statistics that are
+    not in the reduction list (`max`, `min`, `mean`, `std`, `var`, …: the reduction list defines itself),
+    the whole `fft` module, and the Array-API aliases of wrapped functions that newer jax versions added
+    (`acos asin atan atan2 acosh asinh atanh pow concat permute_dims bitwise_* …`: observation, see
+    design/C13.md).  A name that appears in or disappears from `jax.numpy`, or that drops out of the
+    wrapped lists, breaks the generated obligation `namespace_ok` until this list is reviewed. -/
+def pinnedPassThrough : List String :=
+  ["ComplexWarning", "acos", "acosh", "apply_along_axis", "apply_over_axes", "arange",
+   "argpartition", "array", "array_repr", "array_str", "asin", "asinh",
+   "astype", "atan", "atan2", "atanh", "average", "bartlett",
+   "bfloat16", "bincount", "bitwise_and", "bitwise_count", "bitwise_invert", "bitwise_left_shift",
+   "bitwise_not", "bitwise_or", "bitwise_right_shift", "bitwise_xor", "blackman", "bool",
+   "bool_", "broadcast_arrays", "broadcast_shapes", "broadcast_to", "c_", "can_cast",
+   "cdouble", "character", "choose", "complex128", "complex64", "complex_",
+   "complexfloating", "compress", "concat", "concatenate", "copy", "corrcoef",
+   "correlate", "cov", "csingle", "cumulative_sum", "delete", "diag",
+   "diag_indices", "diag_indices_from", "diagflat", "diagonal", "digitize", "double",
+   "dtype", "e", "euler_gamma", "eye", "fft.fft", "fft.fft2",
+   "fft.fftfreq", "fft.fftn", "fft.fftshift", "fft.hfft", "fft.ifft", "fft.ifft2",
+   "fft.ifftn", "fft.ifftshift", "fft.ihfft", "fft.irfft", "fft.irfft2", "fft.irfftn",
+   "fft.rfft", "fft.rfft2", "fft.rfftfreq", "fft.rfftn", "fill_diagonal", "finfo",
+   "flexible", "float16", "float32", "float64", "float8_e4m3b11fnuz", "float8_e4m3fn",
+   "float8_e4m3fnuz", "float8_e5m2", "float8_e5m2fnuz", "float_", "floating", "from_dlpack",
+   "frombuffer", "fromfile", "fromfunction", "fromiter", "frompyfunc", "fromstring",
+   "generic", "geomspace", "get_printoptions", "hamming", "hanning", "histogram",
+   "histogram2d", "histogram_bin_edges", "histogramdd", "identity", "iinfo", "index_exp",
+   "indices", "inexact", "inf", "int16", "int2", "int32",
+   "int4", "int64", "int8", "int_", "integer", "intersect1d",
+   "invert", "isdtype", "isin", "issubdtype", "iterable", "ix_",
+   "kaiser", "left_shift", "linalg.cross", "linalg.diagonal", "linalg.matmul", "linalg.matrix_norm",
+   "linalg.matrix_transpose", "linalg.outer", "linalg.svdvals", "linalg.tensordot", "linalg.trace", "linalg.vecdot",
+   "linalg.vector_norm", "linspace", "load", "logspace", "mask_indices", "matrix_transpose",
+   "max", "mean", "median", "meshgrid", "mgrid", "min",
+   "nan", "nanmean", "nanmedian", "nanpercentile", "nanquantile", "nanstd",
+   "nanvar", "ndarray", "ndim", "newaxis", "number", "object_",
+   "ogrid", "packbits", "pad", "percentile", "permute_dims", "pi",
+   "piecewise", "place", "poly", "polyadd", "polyder", "polydiv",
+   "polyfit", "polyint", "polymul", "polysub", "polyval", "pow",
+   "printoptions", "promote_types", "ptp", "put", "quantile", "r_",
+   "ravel_multi_index", "result_type", "right_shift", "roots", "s_", "save",
+   "savez", "select", "set_printoptions", "setdiff1d", "setxor1d", "signedinteger",
+   "single", "size", "std", "take", "take_along_axis", "trapezoid",
+   "tri", "tril", "tril_indices", "tril_indices_from", "triu", "triu_indices",
+   "triu_indices_from", "ufunc", "uint", "uint16", "uint2", "uint32",
+   "uint4", "uint64", "uint8", "union1d", "unique_all", "unique_counts",
+   "unique_inverse", "unique_values", "unpackbits", "unravel_index", "unsignedinteger", "unstack",
+   "vander", "var", "vecdot", "vectorize"]
+
+def wrappedName (t : Tables) (n : String) : Bool := t.creation.contains n || t.mathematical.contains n
+
+/-- `jnpNames`: sorted public names of `jax.numpy` read from jax by the translator -/
+def checkNamespace (t : Tables) (jnpNames : List String) : Bool :=
+  (jnpNames.filter (fun n => !(wrappedName t n)) == pinnedPassThrough) &&
+  subset (t.creation ++ t.mathematical) jnpNames
+
+theorem checkNamespace_sound (t : Tables) (jnpNames : List String) (h : checkNamespace t jnpNames = true) :
+    -- every name of the namespace is wrapped by one of the lists or is a pinned pass-through
+    (∀ n ∈ jnpNames, wrappedName t n = true ∨ n ∈ pinnedPassThrough) ∧
+    -- the pinned names exist and are not wrapped
+    (∀ n ∈ pinnedPassThrough, n ∈ jnpNames ∧ wrappedName t n = false) ∧
+    -- every wrapped name exists in jax.numpy (nothing is "wrapped" in name only)
+    (∀ n ∈ t.creation ++ t.mathematical, n ∈ jnpNames) := by
+  simp only [checkNamespace, Bool.and_eq_true, beq_iff_eq] at h
+  obtain ⟨h1, h2⟩ := h
+  refine ⟨?_, ?_, subset_iff.1 h2⟩
+  · intro n hn
+    by_cases hw : wrappedName t n = true
+    · exact Or.inl hw
+    · right
+      rw [← h1]
+      exact List.mem_filter.2 ⟨hn, by simpa using hw⟩
+  · intro n hn
+    rw [← h1] at hn
+    obtain ⟨h3, h4⟩ := List.mem_filter.1 hn
+    exact ⟨h3, by simpa using h4⟩
+
+/-! ### operator dunders: lifted, or (pinned) not defined on `BlockArray` -/
+
+/-- Python's unary / binary / reflected operator methods -/
+def allOperatorDunders : List String :=
+  ["__neg__", "__pos__", "__abs__", "__invert__",
+   "__add__", "__radd__", "__sub__", "__rsub__", "__mul__", "__rmul__", "__matmul__", "__rmatmul__",
+   "__truediv__", "__rtruediv__", "__floordiv__", "__rfloordiv__", "__mod__", "__rmod__",
+   "__pow__", "__rpow__", "__divmod__", "__rdivmod__",
+   "__lshift__", "__rlshift__", "__rshift__", "__rrshift__",
+   "__and__", "__rand__", "__xor__", "__rxor__", "__or__", "__ror__",
+   "__lt__", "__le__", "__gt__", "__ge__", "__eq__", "__ne__"]
+
+/-- PINNED: operators a block array does not have (`~x`, `x & y`, `x | y`, `x ^ y`, shifts, `divmod`):
+    Python answers TypeError — unless the OTHER operand's own (reflected) method accepts a sequence, as
+    numpy's does: then numpy treats the block array as a list of arrays (ValueError for blocks of
+    different shapes), never a block-wise result.  In-place operators (`+=` …) are not defined either, so
+    Python falls back to the binary operator and rebinds the name to a NEW block array. -/
+def pinnedNonLifted : List String :=
+  ["__invert__", "__divmod__", "__rdivmod__", "__lshift__", "__rlshift__", "__rshift__", "__rrshift__",
+   "__and__", "__rand__", "__xor__", "__rxor__", "__or__", "__ror__"]
+
+def inplaceDunders : List String :=
+  ["__iadd__", "__isub__", "__imul__", "__imatmul__", "__itruediv__", "__ifloordiv__", "__imod__", "__ipow__",
+   "__ilshift__", "__irshift__", "__iand__", "__ixor__", "__ior__"]
+
+def checkOperators (t : Tables) : Bool :=
+  (allOperatorDunders.filter (fun n => !(t.unaryOps.contains n || t.binaryOps.contains n)) == pinnedNonLifted) &&
+  subset (t.unaryOps ++ t.binaryOps) allOperatorDunders &&
+  disjoint inplaceDunders (t.unaryOps ++ t.binaryOps) &&
+  -- a lifted binary operator is lifted together with its reflected form
+  (t.binaryOps.all (fun n => ["__lt__", "__le__", "__gt__", "__ge__", "__eq__", "__ne__"].contains n ||
+      (if n.startsWith "__r" then true else t.binaryOps.contains ("__r" ++ n.drop 2))))
+
+theorem checkOperators_sound (t : Tables) (h : checkOperators t = true) :
+    (∀ n ∈ allOperatorDunders, n ∈ t.unaryOps ∨ n ∈ t.binaryOps ∨ n ∈ pinnedNonLifted) ∧
+    (∀ n ∈ pinnedNonLifted, n ∉ t.unaryOps ∧ n ∉ t.binaryOps) ∧
+    (∀ n ∈ inplaceDunders, n ∉ t.unaryOps ++ t.binaryOps) := by
+  simp only [checkOperators, Bool.and_eq_true, beq_iff_eq] at h
+  obtain ⟨⟨⟨h1, _⟩, h3⟩, _⟩ := h
+  refine ⟨?_, ?_, disjoint_iff.1 h3⟩
+  · intro n hn
+    by_cases hw : (t.unaryOps.contains n || t.binaryOps.contains n) = true
+    · simp only [Bool.or_eq_true, List.contains_iff_mem] at hw
+      rcases hw with hw | hw
+      · exact Or.inl hw
+      · exact Or.inr (Or.inl hw)
+    · right; right
+      rw [← h1]
+      exact List.mem_filter.2 ⟨hn, by simpa using hw⟩
+  · intro n hn
+    rw [← h1] at hn
+    have := (List.mem_filter.1 hn).2
+    simp only [Bool.not_eq_true', Bool.or_eq_false_iff] at this
+    constructor
+    · intro hc; have := List.contains_iff_mem.2 hc; simp_all
+    · intro hc; have := List.contains_iff_mem.2 hc; simp_all
+
 end Scico.Block.Lists
